@@ -412,7 +412,7 @@ Definition enc_match (m : option (list value)) : list Z :=
    output: mode 1: match of the stripped path ; if it matched: url built from
                    the matched values ; if built: match of the stripped url
            mode 0: url ; if built: match of the stripped url *)
-Definition corr_C19 (inp : list Z) : list Z :=
+Definition corr_C19_one (inp : list Z) : list Z :=
   match dec_str inp with
   | Some (po, r1) =>
     match dec_list dec_str r1 with
@@ -471,4 +471,32 @@ Definition corr_C19 (inp : list Z) : list Z :=
     | None => bad_input
     end
   | None => bad_input
+  end.
+
+(* ---- several url() calls in one process (several Route objects, repeated
+   calls on one Route): Route.url reads self.* and its arguments only and the
+   model is a function, so a sequence of calls is observed call by call ---- *)
+
+Definition url_calls (calls : list (list Z)) : list (list Z) := map corr_C19_one calls.
+
+(* a length-prefixed list of integers *)
+Definition dec_zlist (l : list Z) : option (list Z * list Z) :=
+  match l with
+  | [] => None
+  | z :: r => let n := Z.to_nat z in
+              if Nat.leb n (length r) then Some (firstn n r, skipn n r) else None
+  end.
+
+Definition enc_zlist (l : list Z) : list Z := Z.of_nat (length l) :: l.
+
+(* input:  a single call as above, or  -2 ; n ; n length-prefixed single calls
+   output: the single observation, or n ; n length-prefixed observations *)
+Definition corr_C19 (inp : list Z) : list Z :=
+  match inp with
+  | (-2)%Z :: r =>
+    match dec_list dec_zlist r with
+    | Some (calls, _) => enc_list enc_zlist (url_calls calls)
+    | None => bad_input
+    end
+  | _ => corr_C19_one inp
   end.
